@@ -88,9 +88,53 @@ type scenario struct {
 	Pre  int    `json:"pre"`  // number of bystander messages (0..3)
 	Size string `json:"size"` // small | medium | large
 	Seed int64  `json:"seed"`
+	// Var: how the message the operation works on is stored before the operation:
+	//   ""         a regular file <MID>.b2f
+	//   "symlink"  <MID>.b2f is a symbolic link to a regular file kept in a store directory next to the folders
+	//   "upperext" the file is named <MID>.B2F (the folder listing takes any case of the extension)
+	Var string `json:"var,omitempty"`
 }
 
-func (sc scenario) String() string { return fmt.Sprintf("%s/pre%d/%s", sc.Op, sc.Pre, sc.Size) }
+func (sc scenario) String() string {
+	if sc.Var != "" {
+		return fmt.Sprintf("%s+%s/pre%d/%s", sc.Op, sc.Var, sc.Pre, sc.Size)
+	}
+	return fmt.Sprintf("%s/pre%d/%s", sc.Op, sc.Pre, sc.Size)
+}
+
+const storeDir = "store"
+
+// upper is the differently-cased name of a message file.
+func upper(rel string) string {
+	return strings.TrimSuffix(rel, mailbox.Ext) + strings.ToUpper(mailbox.Ext)
+}
+
+// applyVar re-arranges how the operation's message is stored (see scenario.Var).
+func (sc scenario) applyVar(dir string) error {
+	for _, rel := range sc.targetPaths() {
+		p := filepath.Join(dir, rel)
+		if st, err := os.Lstat(p); err != nil || !st.Mode().IsRegular() {
+			continue
+		}
+		switch sc.Var {
+		case "symlink":
+			if err := os.MkdirAll(filepath.Join(dir, storeDir), 0o755); err != nil {
+				return err
+			}
+			if err := os.Rename(p, filepath.Join(dir, storeDir, filepath.Base(rel))); err != nil {
+				return err
+			}
+			if err := os.Symlink(filepath.Join("..", storeDir, filepath.Base(rel)), p); err != nil {
+				return err
+			}
+		case "upperext":
+			if err := os.Rename(p, filepath.Join(dir, upper(rel))); err != nil {
+				return err
+			}
+		}
+	}
+	return nil
+}
 
 func (sc scenario) target(tag string) mboxkit.MsgSpec {
 	sz := sizes[sc.Size]
@@ -128,6 +172,13 @@ func (sc scenario) crashSpec(dir string) mboxkit.CrashSpec {
 // buildPre prepares the mailbox as it is before the operation (in the worker, with the library's
 // own operations; nothing is killed here).
 func (sc scenario) buildPre(dir string) error {
+	if err := sc.buildPreRegular(dir); err != nil {
+		return err
+	}
+	return sc.applyVar(dir)
+}
+
+func (sc scenario) buildPreRegular(dir string) error {
 	h := mailbox.NewDirHandler(dir, false)
 	if err := h.Prepare(); err != nil {
 		return err
@@ -453,7 +504,7 @@ func (b *bench) recovery(point string) {
 		if err := h.Prepare(); err != nil {
 			b.violate("prepare-error", point, "Prepare() on the restarted mailbox failed: %v", err)
 		}
-		listed := map[string]map[string][]byte{}
+		listed := map[string]map[string][][]byte{}
 		for _, f := range []struct {
 			name string
 			list func() ([]*fbb.Message, error)
@@ -463,10 +514,10 @@ func (b *bench) recovery(point string) {
 				b.violate("load-error:"+f.name, point, "%s/ no longer loads after the crash: %v", f.name, err)
 				continue
 			}
-			listed[f.name] = map[string][]byte{}
+			listed[f.name] = map[string][][]byte{}
 			for _, m := range msgs {
 				if mb, err := m.Bytes(); err == nil {
-					listed[f.name][m.MID()] = mboxkit.Canon(mb)
+					listed[f.name][m.MID()] = append(listed[f.name][m.MID()], mboxkit.Canon(mb))
 					o.Count("messages_listed_after_crash", 1)
 				}
 			}
@@ -481,21 +532,43 @@ func (b *bench) recovery(point string) {
 			if b.sc.libOp() == "SetSent" && isTarget[rel] {
 				continue // clause 3 below
 			}
-			folder, mid := filepath.Dir(rel), strings.TrimSuffix(filepath.Base(rel), mailbox.Ext)
+			base := filepath.Base(rel)
+			folder, mid := filepath.Dir(rel), base[:len(base)-len(filepath.Ext(base))]
 			allowed := [][]byte{mboxkit.Canon(b.pre[rel])}
 			if r, ok := b.ref[rel]; ok && isTarget[rel] {
 				allowed = append(allowed, mboxkit.Canon(r)) // the complete new version of what was being replaced
 			}
+			lower := folder + "/" + mid + mailbox.Ext
+			if folder == storeDir {
+				// the file a message name links to: the old version, or the complete new one should the operation
+				// write through the link (whether it does is the implementation's choice)
+				for t := range isTarget {
+					if r, ok := b.ref[t]; ok && filepath.Base(t) == base {
+						allowed = append(allowed, mboxkit.Canon(r))
+					}
+				}
+			}
 			got, ok := post[rel]
 			o.Count("stored_messages_compared", 1)
 			switch {
+			case !ok && b.sc.Var == "upperext" && isTarget[lower] && rel != lower:
+				// the differently-cased file may be retired once the complete new version is stored under the usual name
+				if r, stored := post[lower]; !stored || !bytes.Equal(mboxkit.Canon(r), mboxkit.Canon(b.ref[lower])) {
+					b.violate("stored-message-lost", point, "%s was stored before the operation and is gone, and %s does not hold the complete new version", rel, lower)
+				}
 			case !ok:
 				b.violate("stored-message-lost", point, "%s was stored before the operation and is gone", rel)
 			case !oneOf(allowed, mboxkit.Canon(got)):
 				b.violate("stored-message-damaged", point, "%s was stored before the operation and is now neither the old nor the complete new version: %d bytes %q...", rel, len(got), head(got, 60))
 			default:
-				if l, ok := listed[folder]; ok && !oneOf(allowed, l[mid]) {
-					b.violate("stored-message-damaged", point, "%s is intact on disk but the %s/ listing does not return it intact", rel, folder)
+				if l, ok := listed[folder]; ok {
+					found := false
+					for _, v := range l[mid] {
+						found = found || oneOf(allowed, v)
+					}
+					if !found {
+						b.violate("stored-message-damaged", point, "%s is intact on disk but the %s/ listing does not return it intact", rel, folder)
+					}
 				}
 			}
 		}
